@@ -9,32 +9,8 @@ BASE_OFF = ("cd /repo && env -u ATOMMAN_VERIF /venv/bin/python -m pytest -ra -q 
             "--continue-on-collection-errors")
 TECH = 'explicit TLA+ specification checked by TLC; '
 
-# pid -> (spec modules, technique, level text, level note, design ref)
-CLAIMED = {
-    'C02': (['Dvect', 'MC_Dvect', 'MC_DvectNeg', 'Dvect_Trace', 'Lattice', 'Arith'],
-            TECH + 'S->C replay of every TLC state into atomman.dvect/dmag + C->S trace validation of recorded '
-                   'dvect/dmag/System.dvect/System.dmag/displacement calls by TLC (Dvect_Trace)',
-            'TLC checks the nearest-image theorem (27-candidate search = exhaustive lattice search with proven per-axis '
-            'radius, under the property\'s antecedent) on every state of a bounded domain of cells/pbc/point pairs, '
-            'and every state is replayed into the real extension with the TLC-computed expectation; independently '
-            'recorded executions (random dyadic cells, all pbc, all broadcast shapes, System and displacement entry '
-            'points) are accepted or rejected record by record by the TLA+ trace specification.',
-            'Inputs are restricted to dyadic grids (exact in float64, 32-bit safe in TLC); non-grid reals are not '
-            'claimed. Trusted: TLC, the int projection harness/proj.to_int, numpy array plumbing in the driver.',
-            'DESIGN.md 3/C02'),
-    'C03': (['Nlist', 'MC_Nlist', 'Nlist_Trace', 'Lattice', 'Arith'],
-            TECH + 'TLC model of the bin/ghost/sweep algorithm (AlgPairs = ExpectedPairs, with a negative configuration '
-                   'that must fail) + S->C replay of every TLC state into NeighborList + C->S trace validation of recorded '
-                   'neighbour lists by TLC (Nlist_Trace: every pair re-decided by nearest-of-27 < cutoff)',
-            'TLC explores an algorithm-shaped model of nlist (superbox, bins, ghosts, swept-bin set, 13-bin stencil) on '
-            'domains that contain faces and offsets within 0.01 cutoff of faces and checks it against the property-level '
-            'pair set; every state is replayed into the real extension; recorded neighbour lists of random dyadic systems '
-            '(sparse, dense >40 atoms per bin, clustered, faces, all storage sizes, dump/load) are accepted or rejected '
-            'by the TLA+ trace specification, which recomputes every pair.',
-            'Dyadic-grid inputs only; atoms inside the cell. The algorithm layer only directs the search: a VIOLATION is '
-            'raised solely by the property-level pair set. Trusted: TLC, float64 exactness on the grid.',
-            'DESIGN.md 3/C03'),
-}
+CLAIMED = {k: (v['mods'], TECH + v['tech'], v['text'], v['note'], v['ref'])
+           for k, v in json.load(open(os.path.join(VERIF, 'harness', 'claims.json'))).items()}
 
 NOT_YET = {}
 
